@@ -49,11 +49,12 @@ def main(argv):
                        env=dict(os.environ, PYVC_REPO=repo, PYVC_EVIDENCE_DIR=os.path.join(HERE, ".scratch", "seeded-evidence", name),
                                 PYVC_REPLAY_DIR=os.path.join(HERE, ".scratch", "seeded-replay", name)))
                 lines = [l for l in c.stdout.splitlines() if l.startswith(("VIOLATION", "KNOWN-FINDING", "  REFUTED", "  UNDECIDED"))]
-                res[p] = dict(exit=c.returncode, lines=lines[:12], wall_s=round(time.time() - t0, 1))
+                viol = [l for l in lines if l.startswith("VIOLATION")]
+                res[p] = dict(exit=c.returncode, lines=lines[:10] + viol[:3], violations=len(viol), wall_s=round(time.time() - t0, 1))
                 print(name, p, "exit", c.returncode, "|", "; ".join(l.strip() for l in lines[:3])[:300], flush=True)
         finally:
             sh("git -C %s checkout -- ." % repo)
-        caught = [p for p, v in res.items() if v["exit"] == 1 and any(l.startswith("VIOLATION") for l in v["lines"])]
+        caught = [p for p, v in res.items() if v["exit"] == 1 and v["violations"] > 0]
         json.dump(dict(seed=name, tier=tier, results=res, caught_by=caught), open(os.path.join(d, "result_%s%s.json" % (tier, "_allprops" if allp else "")), "w"),
                   indent=1)
         summary[name] = caught
